@@ -11,18 +11,34 @@ Definition PProgress : nat := 3.         (* debug_assert!(before != cursor) in l
 
 Inductive outcome := Ok (v : option val) | Err | Panic (site : nat) | OutOfFuel.
 
-Record st := mkSt { cur : nat; sec : list lerr; alt : option lerr; ust : N }.
+(* memo table: (cursor location, parser id) -> None (in progress) | Some e (cached failure, e = the
+   pending error it left, possibly none) *)
+Definition memo_t := list (nat * nat * option (option lerr)).
+Record st := mkSt { cur : nat; sec : list lerr; alt : option lerr; ust : N; memo : memo_t }.
+
+Fixpoint memo_get (t : memo_t) (p id : nat) : option (option (option lerr)) :=
+  match t with
+  | [] => None
+  | (q, j, e) :: r => if andb (Nat.eqb p q) (Nat.eqb id j) then Some e else memo_get r p id
+  end.
+Fixpoint memo_del (t : memo_t) (p id : nat) : memo_t :=
+  match t with
+  | [] => []
+  | (q, j, e) :: r => if andb (Nat.eqb p q) (Nat.eqb id j) then memo_del r p id else (q, j, e) :: memo_del r p id
+  end.
+Definition memo_put (t : memo_t) (p id : nat) (e : option (option lerr)) : memo_t := (p, id, e) :: memo_del t p id.
 
 Definition on_tok (t : tok) (h : N) : N := ((h * 31 + t + 1) mod 1000003)%N.
 
-Definition set_cur s c := mkSt c (sec s) (alt s) (ust s).
-Definition set_alt s a := mkSt (cur s) (sec s) a (ust s).
-Definition set_sec s l := mkSt (cur s) l (alt s) (ust s).
+Definition set_cur s c := mkSt c (sec s) (alt s) (ust s) (memo s).
+Definition set_alt s a := mkSt (cur s) (sec s) a (ust s) (memo s).
+Definition set_sec s l := mkSt (cur s) l (alt s) (ust s) (memo s).
+Definition set_memo s t := mkSt (cur s) (sec s) (alt s) (ust s) t.
 
 Definition ckpt := (nat * nat * N)%type.
 Definition save (s : st) : ckpt := (cur s, length (sec s), ust s).
 Definition rewind (s : st) (c : ckpt) : st :=
-  match c with (p, k, u) => mkSt p (firstn k (sec s)) (alt s) u end.
+  match c with (p, k, u) => mkSt p (firstn k (sec s)) (alt s) u (memo s) end.
 Definition emit (s : st) (p : nat) (e : err) : st := set_sec s (sec s ++ [(p, e)]).
 
 Definition bindv (m : mode) (v : val) : option val := match m with Emit => Some v | Check => None end.
@@ -41,9 +57,12 @@ Record quirks := mkQ {
   q_trymap_pos : bool;      (* F12: a successful try_map re-adds the inner alt at its own start *)
   q_maperr_drop : bool;     (* F3: map_err drops the sheltered alt when its parser succeeds *)
   q_exact_noalt : bool;     (* F10: collect_exactly fails without recording an error when the iterator ends early *)
-  q_emptychoice_none : bool (* F16: choice(&[]) reports found = None although not at the end of input *)
+  q_emptychoice_none : bool; (* F16: choice(&[]) reports found = None although not at the end of input *)
+  q_memo_take : bool;       (* F5: memoized takes the pending error on failure and replays it at the call position *)
+  memo_on : bool            (* not a defect: whether memoized() uses its table at all; the refinement theorems are
+                               stated for the machine without tables, C11 relates the two *)
 }.
-Definition no_quirks : quirks := mkQ false false false false false false false.
+Definition no_quirks : quirks := mkQ false false false false false false false false false.
 
 Section Machine.
 Variable Q : quirks.
@@ -53,7 +72,7 @@ Variable spn : nat -> nat -> span.     (* Input::span for two cursors, as token 
 
 Definition next (s : st) : option tok * st :=
   match nth_error toks (cur s) with
-  | Some t => (Some t, mkSt (S (cur s)) (sec s) (alt s) (on_tok t (ust s)))
+  | Some t => (Some t, mkSt (S (cur s)) (sec s) (alt s) (on_tok t (ust s)) (memo s))
   | None => (None, s)
   end.
 
@@ -63,7 +82,7 @@ Definition alt_err (s : st) (p : nat) (e : err) : st :=
   set_alt s (add_alt_err (q_zst_noop Q) K (alt s) p e).
 (* restore cursor and inspector without touching the error list *)
 Definition reposition (s : st) (c : ckpt) : st :=
-  match c with (p, _, u) => mkSt p (sec s) (alt s) u end.
+  match c with (p, _, u) => mkSt p (sec s) (alt s) u (memo s) end.
 (* merge a sheltered sub-parse's pending error back into the register *)
 Definition join_alt (s : st) (new : option lerr) : st :=
   match new with Some (p, e) => alt_err s p e | None => s end.
@@ -117,14 +136,14 @@ Fixpoint custom_loop (ts : list tok) (s : st) : bool * st :=
       end
   end.
 
-Definition run_t := mode -> G -> val -> st -> outcome * st.
+Definition run_t := mode -> G -> env -> st -> outcome * st.
 
 (* ---------- loops parameterised by the recursive interpreter ---------- *)
 Section Loops.
 Variable run : run_t.
 
 (* choice((a, b, ..)): rewind after every failing alternative *)
-Fixpoint choice_loop (m : mode) (gs : list G) (ctx : val) (before : ckpt) (s : st) : outcome * st :=
+Fixpoint choice_loop (m : mode) (gs : list G) (ctx : env) (before : ckpt) (s : st) : outcome * st :=
   match gs with
   | [] => (Err, s)
   | g :: r =>
@@ -135,7 +154,7 @@ Fixpoint choice_loop (m : mode) (gs : list G) (ctx : val) (before : ckpt) (s : s
   end.
 
 (* choice(&[..]): rewind before every alternative, not after the last failure *)
-Fixpoint choicevec_loop (m : mode) (gs : list G) (ctx : val) (before : ckpt) (s : st) : outcome * st :=
+Fixpoint choicevec_loop (m : mode) (gs : list G) (ctx : env) (before : ckpt) (s : st) : outcome * st :=
   match gs with
   | [] => (Err, s)
   | g :: r =>
@@ -145,7 +164,7 @@ Fixpoint choicevec_loop (m : mode) (gs : list G) (ctx : val) (before : ckpt) (s 
       end
   end.
 
-Fixpoint group_loop (m : mode) (gs : list G) (ctx : val) (acc : list val) (s : st) : outcome * st :=
+Fixpoint group_loop (m : mode) (gs : list G) (ctx : env) (acc : list val) (s : st) : outcome * st :=
   match gs with
   | [] => (Ok (bindv m (VList (rev acc))), s)
   | g :: r =>
@@ -160,7 +179,7 @@ Inductive itst := SCount (n : nat) | SEnum (i : nat) (s : itst) | SFlag (b : boo
                 | SCfg (n : nat) (lo : nat) (hi : option nat).
 Inductive ires := INone | ISome (v : option val) | IErr | IPanic (site : nat) | IOOF.
 
-Fixpoint mk_iter (i : IT) (ctx : val) : itst :=
+Fixpoint mk_iter (i : IT) (ctx : env) : itst :=
   match i with
   | IRep _ _ _ => SCount 0
   | ISep _ _ _ _ _ _ => SCount 0
@@ -168,7 +187,7 @@ Fixpoint mk_iter (i : IT) (ctx : val) : itst :=
   | IMap _ j => mk_iter j ctx
   | IMapWith _ j => mk_iter j ctx
   | IOrNot _ => SFlag false
-  | IRepCfg _ _ _ => SCfg 0 (val_count ctx) (Some (val_count ctx))
+  | IRepCfg _ _ _ => SCfg 0 (val_count (cval ctx)) (Some (val_count (cval ctx)))
   end.
 
 Fixpoint noncons_ok (i : IT) : bool :=
@@ -181,7 +200,7 @@ Fixpoint noncons_ok (i : IT) : bool :=
 Definition at_cap (c : nat) (hi : option nat) : bool :=
   match hi with Some h => Nat.leb h c | None => false end.
 
-Definition rep_next (m : mode) (a : G) (lo : nat) (hi : option nat) (ctx : val) (c : nat) (s : st)
+Definition rep_next (m : mode) (a : G) (lo : nat) (hi : option nat) (ctx : env) (c : nat) (s : st)
   : ires * nat * st :=
   if at_cap c hi then (INone, c, s) else
   let before := save s in
@@ -193,7 +212,7 @@ Definition rep_next (m : mode) (a : G) (lo : nat) (hi : option nat) (ctx : val) 
   end.
 
 (* the item part of SeparatedBy::next; [before_sep] is the checkpoint taken before the separator *)
-Definition sep_item (m : mode) (a : G) (lo : nat) (trail : bool) (ctx : val) (c : nat)
+Definition sep_item (m : mode) (a : G) (lo : nat) (trail : bool) (ctx : env) (c : nat)
            (before_sep : ckpt) (s0 : st) : ires * nat * st :=
   let before_item := save s0 in
   match run m a ctx s0 with
@@ -207,7 +226,7 @@ Definition sep_item (m : mode) (a : G) (lo : nat) (trail : bool) (ctx : val) (c 
   end.
 
 Definition sep_next (m : mode) (a sep : G) (lo : nat) (hi : option nat) (lead trail : bool)
-           (ctx : val) (c : nat) (s : st) : ires * nat * st :=
+           (ctx : env) (c : nat) (s : st) : ires * nat * st :=
   if at_cap c hi then (INone, c, s) else
   let before_sep := save s in
   if andb (Nat.eqb c 0) lead then
@@ -229,7 +248,7 @@ Definition sep_next (m : mode) (a sep : G) (lo : nat) (hi : option nat) (lead tr
 
 Definition cfg_or {A} (o : option A) (d : A) : A := match o with Some x => x | None => d end.
 
-Fixpoint it_next (m : mode) (i : IT) (ctx : val) (its : itst) (s : st) : ires * itst * st :=
+Fixpoint it_next (m : mode) (i : IT) (ctx : env) (its : itst) (s : st) : ires * itst * st :=
   match i, its with
   | IRep a lo hi, SCount c =>
       match rep_next m a lo hi ctx c s with (r, c', s') => (r, SCount c', s') end
@@ -253,7 +272,7 @@ Fixpoint it_next (m : mode) (i : IT) (ctx : val) (its : itst) (s : st) : ires * 
   | IMapWith f j, _ =>
       match it_next m j ctx its s with
       | (ISome v, js', s') =>
-          (ISome (mapv m (fun x => apmw f x (spn (cur s) (cur s')) (cur s, cur s') (ust s') ctx) v), js', s')
+          (ISome (mapv m (fun x => apmw f x (spn (cur s) (cur s')) (cur s, cur s') (ust s') (cval ctx)) v), js', s')
       | r => r
       end
   | IOrNot a, SFlag fin =>
@@ -269,7 +288,7 @@ Fixpoint it_next (m : mode) (i : IT) (ctx : val) (its : itst) (s : st) : ires * 
   end.
 
 (* Repeated::go fast path for 0..inf *)
-Fixpoint rep_fast (fuel : nat) (m : mode) (a : G) (ctx : val) (s : st) : outcome * st :=
+Fixpoint rep_fast (fuel : nat) (m : mode) (a : G) (ctx : env) (s : st) : outcome * st :=
   match fuel with
   | 0 => (OutOfFuel, s)
   | S fuel' =>
@@ -287,7 +306,7 @@ Fixpoint rep_fast (fuel : nat) (m : mode) (a : G) (ctx : val) (s : st) : outcome
    the user state after it.  [pa idx] says whether the debug progress assertion applies to
    iteration idx.  Result flag: true = the iterator ended (None), false = stopped by [lim]. *)
 Definition item := (val * nat * nat * N)%type.
-Fixpoint drive (fuel : nat) (m : mode) (i : IT) (ctx : val) (its : itst) (lim : option nat)
+Fixpoint drive (fuel : nat) (m : mode) (i : IT) (ctx : env) (its : itst) (lim : option nat)
          (pa : nat -> bool) (idx : nat) (acc : list item) (s : st) : outcome * list item * bool * st :=
   match fuel with
   | 0 => (OutOfFuel, acc, false, s)
@@ -309,7 +328,7 @@ Fixpoint drive (fuel : nat) (m : mode) (i : IT) (ctx : val) (its : itst) (lim : 
   end.
 
 (* skip_until strategy loop *)
-Fixpoint skip_until_loop (fuel : nat) (m : mode) (skip until : G) (fb : nat) (ctx : val)
+Fixpoint skip_until_loop (fuel : nat) (m : mode) (skip until : G) (fb : nat) (ctx : env)
          (a0 : lerr) (s : st) : outcome * st :=
   match fuel with
   | 0 => (OutOfFuel, s)
@@ -328,7 +347,7 @@ Fixpoint skip_until_loop (fuel : nat) (m : mode) (skip until : G) (fb : nat) (ct
   end.
 
 (* skip_then_retry_until strategy loop *)
-Fixpoint skip_retry_loop (fuel : nat) (m : mode) (p skip until : G) (ctx : val)
+Fixpoint skip_retry_loop (fuel : nat) (m : mode) (p skip until : G) (ctx : env)
          (a0 : lerr) (s : st) : outcome * st :=
   match fuel with
   | 0 => (OutOfFuel, s)
@@ -355,6 +374,101 @@ Fixpoint skip_retry_loop (fuel : nat) (m : mode) (p skip until : G) (ctx : val)
       end
   end.
 
+(* ---------- Pratt (pratt.rs) ---------- *)
+Inductive presult := PDone (r : outcome) (s : st) | PNext (s : st).
+
+Section PrattOps.
+Variable rec : nat -> st -> outcome * st.     (* pratt_go at the recursion's fuel: min power -> run *)
+
+(* Operator::do_parse_prefix over the table: the first prefix operator whose op parser and operand succeed *)
+Fixpoint pratt_prefix (m : mode) (ops : list pop) (ctx : env) (pre_expr : ckpt) (start : nat) (s : st) : presult :=
+  match ops with
+  | [] => PNext s
+  | PPrefix bp og k :: rest =>
+      match run m og ctx s with
+      | (Ok op, s1) =>
+          match rec (2 * bp) s1 with
+          | (Ok rhs, s2) => PDone (Ok (bindv m (pfold_prefix k (getv op) (getv rhs) (spn start (cur s2))))) s2
+          | (Err, s2) => pratt_prefix m rest ctx pre_expr start (rewind s2 pre_expr)
+          | (r, s2) => PDone r s2
+          end
+      | (Err, s1) => pratt_prefix m rest ctx pre_expr start (rewind s1 pre_expr)
+      | (r, s1) => PDone r s1
+      end
+  | _ :: rest => pratt_prefix m rest ctx pre_expr start s
+  end.
+
+Fixpoint pratt_postfix (m : mode) (ops : list pop) (ctx : env) (minp : nat) (pre_op : ckpt) (start : nat)
+         (lhs : option val) (s : st) : presult :=
+  match ops with
+  | [] => PNext s
+  | PPostfix bp og k :: rest =>
+      if Nat.leb minp (2 * bp + 1) then
+        match run m og ctx s with
+        | (Ok op, s1) => PDone (Ok (bindv m (pfold_postfix k (getv lhs) (getv op) (spn start (cur s1))))) s1
+        | (Err, s1) => pratt_postfix m rest ctx minp pre_op start lhs (rewind s1 pre_op)
+        | (r, s1) => PDone r s1
+        end
+      else pratt_postfix m rest ctx minp pre_op start lhs s
+  | _ :: rest => pratt_postfix m rest ctx minp pre_op start lhs s
+  end.
+
+Fixpoint pratt_infix (m : mode) (ops : list pop) (ctx : env) (minp : nat) (pre_op : ckpt) (start : nat)
+         (lhs : option val) (s : st) : presult :=
+  match ops with
+  | [] => PNext s
+  | PInfix r bp og k :: rest =>
+      if Nat.leb minp (lpow r bp) then
+        match run m og ctx s with
+        | (Ok op, s1) =>
+            match rec (rpow r bp) s1 with
+            | (Ok rhs, s2) =>
+                PDone (Ok (bindv m (pfold_infix k (getv lhs) (getv op) (getv rhs) (spn start (cur s2))))) s2
+            | (Err, s2) => pratt_infix m rest ctx minp pre_op start lhs (rewind s2 pre_op)
+            | (r0, s2) => PDone r0 s2
+            end
+        | (Err, s1) => pratt_infix m rest ctx minp pre_op start lhs (rewind s1 pre_op)
+        | (r0, s1) => PDone r0 s1
+        end
+      else pratt_infix m rest ctx minp pre_op start lhs s
+  | _ :: rest => pratt_infix m rest ctx minp pre_op start lhs s
+  end.
+End PrattOps.
+
+Fixpoint pratt_go (fuel : nat) (m : mode) (atom : G) (ops : list pop) (ctx : env) (minp : nat) (s : st)
+         {struct fuel} : outcome * st :=
+  match fuel with
+  | 0 => (OutOfFuel, s)
+  | S f =>
+      let pre_expr := save s in
+      match pratt_prefix (pratt_go f m atom ops ctx) m ops ctx pre_expr (cur s) s with
+      | PDone (Ok v) s1 => pratt_loop f m atom ops ctx minp (cur s) v s1
+      | PDone r s1 => (r, s1)
+      | PNext s1 =>
+          match run m atom ctx s1 with
+          | (Ok v, s2) => pratt_loop f m atom ops ctx minp (cur s) v s2
+          | res => res
+          end
+      end
+  end
+with pratt_loop (fuel : nat) (m : mode) (atom : G) (ops : list pop) (ctx : env) (minp : nat) (start : nat)
+                (lhs : option val) (s : st) {struct fuel} : outcome * st :=
+  match fuel with
+  | 0 => (OutOfFuel, s)
+  | S f =>
+      let pre_op := save s in
+      match pratt_postfix m ops ctx minp pre_op start lhs s with
+      | PDone (Ok v) s1 => pratt_loop f m atom ops ctx minp start v s1
+      | PDone r s1 => (r, s1)
+      | PNext s1 =>
+          match pratt_infix (pratt_go f m atom ops ctx) m ops ctx minp pre_op start lhs s1 with
+          | PDone (Ok v) s2 => pratt_loop f m atom ops ctx minp start v s2
+          | PDone r s2 => (r, s2)
+          | PNext s2 => (Ok lhs, rewind s2 pre_op)
+          end
+      end
+  end.
+
 End Loops.
 
 Definition ctxify (l : nat) (start : nat) (e : lerr) : lerr :=
@@ -367,7 +481,7 @@ Definition item_ust (it : item) : N := match it with (_, _, _, u) => u end.
 Definition vspan (sp : span) : val := VSpan (fst sp) (snd sp).
 
 (* ---------- the interpreter ---------- *)
-Fixpoint go (n : nat) (m : mode) (g : G) (ctx : val) (s : st) {struct n} : outcome * st :=
+Fixpoint go (n : nat) (m : mode) (g : G) (ctx : env) (s : st) {struct n} : outcome * st :=
   match n with
   | 0 => (OutOfFuel, s)
   | S n' =>
@@ -399,7 +513,7 @@ Fixpoint go (n : nat) (m : mode) (g : G) (ctx : val) (s : st) {struct n} : outco
   | MapWith f a =>
       match run m a ctx s with
       | (Ok v, s1) =>
-          (Ok (mapv m (fun x => apmw f x (spn (cur s) (cur s1)) (cur s, cur s1) (ust s1) ctx) v), s1)
+          (Ok (mapv m (fun x => apmw f x (spn (cur s) (cur s1)) (cur s, cur s1) (ust s1) (cval ctx)) v), s1)
       | res => res
       end
   | To k a =>
@@ -716,28 +830,59 @@ Fixpoint go (n : nat) (m : mode) (g : G) (ctx : val) (s : st) {struct n} : outco
           else (Ok v, join_alt (set_alt s1 old) (alt s1))
       | res => res
       end
-  | WithCtx c a => run m a c s
+  | WithCtx c a => run m a (with_ctx ctx c) s
   | IgnoreWithCtx a b =>
       match run Emit a ctx s with
-      | (Ok va, s1) => run m b (getv va) s1
+      | (Ok va, s1) => run m b (with_ctx ctx (getv va)) s1
       | res => res
       end
   | ThenWithCtx a b =>
       match run Emit a ctx s with
       | (Ok va, s1) =>
-          match run m b (getv va) s1 with
+          match run m b (with_ctx ctx (getv va)) s1 with
           | (Ok vb, s2) => (Ok (mapv m (fun x => VPair (getv va) x) vb), s2)
           | res => res
           end
       | res => res
       end
-  | MapCtx f a => run m a (ap1 f ctx) s
-  | JustCfg _ => just_go m (val_toks ctx) s
+  | MapCtx f a => run m a (with_ctx ctx (ap1 f (cval ctx))) s
+  | JustCfg _ => just_go m (val_toks (cval ctx)) s
+  | Memo id a =>
+      if negb (memo_on Q) then run m a ctx s else
+      match memo_get (memo s) (cur s) id with
+      | Some (Some (Some (p, e))) =>             (* cached failure with its error *)
+          (Err, alt_err s (if q_memo_take Q then cur s else p) e)
+      | Some _ =>                                (* in progress (left recursion) or cached failure without error *)
+          (Err, alt_ef s [] None (spn (cur s) (cur s)))
+      | None =>
+          let s0 := set_memo s (memo_put (memo s) (cur s) id None) in
+          if q_memo_take Q then
+            match run m a ctx s0 with
+            | (Err, s1) => (Err, set_memo (set_alt s1 None) (memo_put (memo s1) (cur s) id (Some (alt s1))))
+            | (Ok v, s1) => (Ok v, set_memo s1 (memo_del (memo s1) (cur s) id))
+            | res => res
+            end
+          else
+            (* shelter: the inner parser runs on an empty register; its pending error is cached and merged back *)
+            match run m a ctx (set_alt s0 None) with
+            | (Err, s1) =>
+                (Err, set_memo (join_alt (set_alt s1 (alt s)) (alt s1)) (memo_put (memo s1) (cur s) id (Some (alt s1))))
+            | (Ok v, s1) => (Ok v, set_memo (join_alt (set_alt s1 (alt s)) (alt s1)) (memo_del (memo s1) (cur s) id))
+            | res => res
+            end
+      end
+  | Rec a => run m a (mkEnv (cval ctx) (a :: crec ctx)) s
+  | Var k =>
+      match nth_error (crec ctx) k with
+      | Some a => run m a (mkEnv (cval ctx) (skipn k (crec ctx))) s
+      | None => (Panic 98, s)                    (* unbound recursive reference: ill-formed grammar *)
+      end
+  | Pratt atom ops => pratt_go run n' m atom ops ctx 0 s
   end
   end.
 
 (* ---------- top level: Parser::parse / Parser::check (lib.rs) ---------- *)
-Definition init_st : st := mkSt 0 [] None 0%N.
+Definition init_st : st := mkSt 0 [] None 0%N [].
 
 Inductive top_result :=
 | TRes (out : option (option val)) (errs : list err)     (* ParseResult { output, errs } *)
@@ -745,7 +890,7 @@ Inductive top_result :=
 | TOOF.
 
 Definition run_top (n : nat) (m : mode) (g : G) : top_result :=
-  match go n m (ThenIgnore g End) VUnit init_st with
+  match go n m (ThenIgnore g End) env0 init_st with
   | (Ok v, s) => TRes (Some v) (map snd (sec s))
   | (Err, s) =>
       let a := match alt s with
